@@ -11,7 +11,7 @@ PYTHONPATH=$WT /venv/bin/python $OUT/demo.py >/tmp/wt/$ID.$MK.mut.log 2>&1; M=$?
 git checkout -q -- svgpathtools
 T=$(cat /tmp/wt/$ID.$MK.tests.log)
 echo "$ID $MK: demo clean exit=$C mutated exit=$M tests: $T"
-case "$T" in *"1 failed, 91 passed"*) TOK=1;; *) TOK=0;; esac
+case "$T" in *"92 passed"*) case "$T" in *failed*) TOK=0;; *) TOK=1;; esac;; *) TOK=0;; esac
 if [ $C = 0 ] && [ $M = 1 ] && [ $TOK = 1 ]; then
   D=/verif/seeded/$ID-$MK; mkdir -p $D
   cp $OUT/patch.diff $OUT/demo.py $D/; cp $OUT/notes.md $D/notes.md 2>/dev/null
